@@ -208,7 +208,15 @@ func (ExposureMonitor) OnWrite(x *Ctx, w *Write) {
 		return
 	}
 	// (b) exposure: every change of the workload's update knob by the BatchRelease controller
-	if w.Actor != "B" || w.Verb != "update" || w.Status || w.Key.Name != AppName || w.Key.GVR.Resource != workloadResource(sc) {
+	if w.Actor != "B" || w.Verb != "update" || w.Status || w.Key.GVR.Resource != workloadResource(sc) {
+		return
+	}
+	if sc.Style == "canary" {
+		// the knob of the canary style is the replicas of the extra canary Deployment
+		if w.Key.Name == AppName || exposureOf(sc, w.After) < 0 {
+			return
+		}
+	} else if w.Key.Name != AppName {
 		return
 	}
 	ro := getRollout(x.W, sc)
